@@ -132,6 +132,27 @@ Theorem C12_name_clash_refuted :
 Proof. exact name_clash_refuted. Qed.
 Print Assumptions C12_name_clash_refuted.
 
+(** Second member of the F8 class: two generic functions of the same name under
+    one module path (nested in different function bodies) share one node and one
+    group slot; a function that leaves [ignore] unset is ignored or not depending
+    on which of the two was registered last.  [no_name_clash] excludes it
+    ([NoDup] of the group keys).  When both functions set the field, each keeps
+    its own setting in both orders. *)
+Theorem C12_same_name_generic_refuted :
+  runs_id 2 (flat_exec cfg_plain [] [s_first; s_second_unset]) = true /\
+  runs_id 2 (exec_forest cfg_plain [] None (build_tree [] [s_first; s_second_unset])) = true /\
+  runs_id 2 (exec_forest cfg_plain [] None (build_tree [] [s_second_unset; s_first])) = false.
+Proof. exact same_name_generic_refuted. Qed.
+Print Assumptions C12_same_name_generic_refuted.
+
+Theorem C12_same_name_generic_both_set :
+  runs_id 2 (exec_forest cfg_plain [] None (build_tree [] [s_first; s_second_set])) = true /\
+  runs_id 2 (exec_forest cfg_plain [] None (build_tree [] [s_second_set; s_first])) = true /\
+  runs_id 1 (exec_forest cfg_plain [] None (build_tree [] [s_first; s_second_set])) = false /\
+  runs_id 1 (exec_forest cfg_plain [] None (build_tree [] [s_second_set; s_first])) = false.
+Proof. exact same_name_generic_both_set. Qed.
+Print Assumptions C12_same_name_generic_both_set.
+
 (** Macro level: one [#[divan::bench]] registers nothing for exclusively empty
     [types]/[consts]; one [BenchEntry] without generics; otherwise one
     [GroupEntry] whose generic entries are exactly the types x consts product
